@@ -11,9 +11,14 @@
 //!         Correspondence: `std <modules…>` — what `Resolver::resolve` returns for each `use` (origin module and
 //!         position of every inlined statement) and `imported_modules` afterwards, against the Lean model run on
 //!         the regenerated module table.
-//!     syn <table> ; <program>                synthetic module system for the real `Resolver` (cycles, unknown
-//!         modules, repeated and nested `use`): table = `name=item,item,…` separated by `|`, items `u:<module>`
-//!         or `d:<name>`; program = items separated by `,`.  Correspondence only.
+//!     syn <table> ; <input> ; <input> …      synthetic module system for the real `Resolver` (cycles, unknown
+//!         modules, repeated and nested `use`, several inputs on one resolver): table = `<k>=<item>,<item>…`
+//!         separated by `|` (module `m<k>`), items `u<k>` (`use m<k>`) or `d<n>` (`let d<n> = 0`).
+//!         Correspondence only.  One cycle is first tried in a child process (`--canary`): a resolver that
+//!         overflows the stack on a cycle must not take the whole run down.
+//!
+//! A failing sequence is minimised: modules are dropped, then every single module and every ordered pair of the
+//! closure of the sequence is tried (smallest closure first).
 //!
 //! `--dump FILE` writes the module table (for tools/gen_modules.py) and exits.
 
@@ -270,18 +275,73 @@ fn oracle(style: Style, seq: &[String], reimport_pick: u64, sorted_cache: Option
     Verdict { fail: None, imported: imported.len() }
 }
 
-fn report(out: &mut Out, style: Style, seq: &[String], v: &Verdict) {
+/// the modules a session importing `seq` records (closure of the sequence), from the parsed module sources
+fn closure_of(table: &[ModInfo], seq: &[String]) -> Vec<String> {
+    let mut seen: Vec<String> = vec![];
+    let mut todo: Vec<String> = seq.to_vec();
+    while let Some(m) = todo.pop() {
+        if seen.contains(&m) {
+            continue;
+        }
+        if let Some(info) = table.iter().find(|x| x.name == m) {
+            for it in &info.items {
+                if let ItemSummary::Use { target, .. } = it {
+                    todo.push(target.clone());
+                }
+            }
+        }
+        seen.push(m);
+    }
+    seen.sort();
+    seen
+}
+
+/// smallest failing import sequence with the same kind of failure: first the sequence with modules dropped,
+/// then (the first `deep` times) every single module and every ordered pair of the closure of the sequence
+fn minimise(table: &[ModInfo], style: Style, seq: &[String], kind: &str, threads: usize, deep: bool) -> Vec<String> {
+    let same = |c: &[String]| matches!(&oracle(style, c, 0, None).fail, Some((k2, _)) if k2 == kind);
+    let small = shrink_seq(seq, |c| same(c));
+    if !deep || (small.len() == 1 && closure_of(table, &small).len() == 1) {
+        return small;
+    }
+    let clos = closure_of(table, &small);
+    // candidates with the smallest own closure first
+    let mut clos: Vec<(usize, String)> = clos.into_iter().map(|m| (closure_of(table, &[m.clone()]).len(), m)).collect();
+    clos.sort();
+    let clos: Vec<String> = clos.into_iter().map(|(_, m)| m).collect();
+    let singles: Vec<Vec<String>> = clos.iter().map(|m| vec![m.clone()]).collect();
+    let r = parallel(&singles, threads, |c| same(c));
+    if let Some(i) = r.iter().position(|x| *x) {
+        return singles[i].clone();
+    }
+    if small.len() <= 2 && clos.len() == small.len() {
+        return small;
+    }
+    let mut pairs: Vec<Vec<String>> = vec![];
+    for a in &clos {
+        for b in &clos {
+            if a != b {
+                pairs.push(vec![a.clone(), b.clone()]);
+            }
+        }
+    }
+    pairs.sort_by_key(|p| closure_of(table, p).len());
+    let r = parallel(&pairs, threads, |c| same(c));
+    if let Some(i) = r.iter().position(|x| *x) {
+        return pairs[i].clone();
+    }
+    small
+}
+
+fn report(out: &mut Out, table: &[ModInfo], threads: usize, style: Style, seq: &[String], v: &Verdict) {
     if let Some((kind, what)) = &v.fail {
-        // shrink: drop modules while the same kind of failure remains
-        let k = kind.clone();
-        let small = shrink_seq(seq, |c| matches!(&oracle(style, c, 0, None).fail, Some((k2, _)) if *k2 == k));
+        let deep = out.oracle_failures < 3;
+        let small = minimise(table, style, seq, kind, threads, deep);
         let v2 = oracle(style, &small, 0, None);
         let (small, what) = match v2.fail {
             Some((_, w)) => (small, w),
             None => (seq.to_vec(), what.clone()),
         };
-        let mut set = small.clone();
-        set.sort();
         out.oracle_fail(&format!("c17:{}:{}", kind, small.join(",")), &case_text(style, &small), &what);
         out.count(&format!("oracle_fail_{}", kind));
     }
@@ -633,7 +693,61 @@ fn main() {
             syn_cases.push(random_syn(&mut srng));
         }
     }
+    // an import cycle makes a resolver that records a module too late recurse until the stack overflows, which
+    // cannot be caught in-process: try one cycle in a child process first
+    let cycles_ok = args.extra.contains_key("canary") || {
+        let dir = args.out.join("canary");
+        let _ = std::fs::create_dir_all(&dir);
+        let f = dir.join("cycle.txt");
+        let _ = std::fs::write(&f, "syn 0=u1,d1|1=u0,d2 ; u0\n");
+        std::env::current_exe()
+            .ok()
+            .and_then(|exe| {
+                std::process::Command::new(exe)
+                    .args(["--canary", "1", "--replay"])
+                    .arg(&f)
+                    .arg("--out")
+                    .arg(&dir)
+                    .stderr(std::process::Stdio::null())
+                    .status()
+                    .ok()
+            })
+            .map(|st| st.success())
+            .unwrap_or(true)
+    };
+    if !cycles_ok {
+        out.count("resolver_crashes_on_import_cycle");
+    }
     for (t, p) in &syn_cases {
+        let has_cycle = {
+            let uses_of = |m: usize| -> Vec<usize> {
+                t.iter()
+                    .find(|(k, _)| *k == m)
+                    .map(|(_, its)| its.iter().filter_map(|i| if let SynItem::Use(u) = i { Some(*u) } else { None }).collect())
+                    .unwrap_or_default()
+            };
+            t.iter().any(|(m, _)| {
+                let mut seen = vec![];
+                let mut todo = uses_of(*m);
+                let mut hit = false;
+                while let Some(x) = todo.pop() {
+                    if x == *m {
+                        hit = true;
+                    }
+                    if !seen.contains(&x) {
+                        seen.push(x);
+                        todo.extend(uses_of(x));
+                    }
+                }
+                hit
+            })
+        };
+        if has_cycle && !cycles_ok {
+            let t_txt = t.iter().map(|(m, items)| format!("{}={}", m, items.iter().map(|i| i.text()).collect::<Vec<_>>().join(","))).collect::<Vec<_>>().join("|");
+            let p_txt = p.iter().map(|items| items.iter().map(|i| i.text()).collect::<Vec<_>>().join(",")).collect::<Vec<_>>().join(" ; ");
+            out.line(&format!("syn {} ; {}", t_txt, p_txt), "not run: the resolver crashed (stack overflow) on an import cycle in a child process");
+            continue;
+        }
         let (req, ans) = syn_line(t, p);
         out.count(if ans.contains("err") { "syn_with_unknown_module_error" } else { "syn_all_inputs_ok" });
         out.count(&format!("syn_modules_{}", t.len()));
@@ -680,7 +794,7 @@ fn main() {
         }
         out.count(&format!("imported_closure_size_{:02}x", v.imported / 10));
         out.count(if v.fail.is_some() { "verdict_fail" } else { "verdict_ok" });
-        report(&mut out, *st, seq, v);
+        report(&mut out, &table, threads, *st, seq, v);
     }
     out.extra.insert("oracle_wall_s".into(), format!("{:.1}", t0.elapsed().as_secs_f64()));
     out.extra.insert("threads".into(), threads.to_string());
